@@ -48,7 +48,14 @@ def main() -> int:
     try:
         mod = importlib.import_module(MODULES[a.prop])
         if a.replay:
-            return mod.replay(a.replay)
+            import json
+
+            with open(a.replay) as f:
+                rec = json.load(f)
+            os.environ["VERIF_REPLAY_SIGNATURE"] = rec["signature"]
+            os.environ["VERIF_REPLAY_FILE"] = a.replay
+            print(f"replaying {rec['signature']} ({rec.get('what', '')[:200]}) with tier={rec.get('tier', a.tier)} seed={rec.get('seed', seed)}")
+            return mod.run(rec.get("tier", a.tier), int(rec.get("seed", seed)))
         return mod.run(a.tier, seed)
     except C.MachineryError as e:
         print(f"MACHINERY-FAILURE property={a.prop}: {e}", file=sys.stderr)
